@@ -41,6 +41,29 @@ def run(ctx, eng):
                'inserts into %s' % ins if ins else
                'no insert into streams / _closed_streams is reachable',
                node=fi.node)
+    # ---- (1b) the one handler that may allocate without opening: a stream
+    # object created for a promise is reserved on the same path - an idle
+    # stream left in the table is never swept (only CLOSED ones are) and
+    # never counted against any limit
+    fpp = m.func(H + '_receive_push_promise_frame')
+    bad = []
+    n = 0
+    for p in cm.normal_paths(eng.I.run(fpp)):
+        for b in cm.calls_to(p, '_begin_new_stream', '_get_or_create_stream'):
+            n += 1
+            res = b.get('result')
+            used = [e for e in p.events[p.index(b) + 1:]
+                    if e.kind == 'call' and e.d.get('recv') == res and
+                    cm.ev_callee_names(e) & {'remotely_pushed'}]
+            if not used:
+                bad.append('a path creates the promised stream and returns '
+                           'without reserving it (it stays idle in the table '
+                           'for good)')
+    ctx.ob('OWN.no-idle', fpp.qual, 'a stream allocated for a promise is '
+           'reserved at once', n > 0 and not bad,
+           '; '.join(sorted(set(bad))) or 'every returning path that '
+           'allocates calls remotely_pushed on the new stream',
+           node=fpp.node)
     # ---- (2) who inserts
     ins_streams = set()
     ins_closed = set()
@@ -117,6 +140,27 @@ def run(ctx, eng):
     ctx.ob('ARITH.evict', f3.qual, 'evicts oldest while over the limit', ok,
            'while len(self) > self._size_limit: self.popitem(last=False)',
            node=f3.node)
+    # "oldest" means oldest inserted: nothing reorders the entries (a read
+    # that refreshes an entry would let it outlive newer ones, and the newer
+    # ones - still within the documented bound - would be forgotten)
+    cls_sld = m.cls('utilities.SizeLimitDict')
+    reorder = sorted(
+        {nd.func.attr for nd in ast.walk(cls_sld.node)
+         if isinstance(nd, ast.Call) and isinstance(nd.func, ast.Attribute)
+         and nd.func.attr in ('move_to_end', 'pop', 'clear', 'popitem',
+                              '__delitem__') and not (
+             nd.func.attr == 'popitem' and any(
+                 k.arg == 'last' and isinstance(k.value, ast.Constant) and
+                 k.value.value is False for k in nd.keywords)) and not (
+             nd.func.attr == 'pop' and isinstance(nd.func.value, ast.Name)
+             and nd.func.value.id in ('kwargs', 'kw'))} |
+        {x for x in m.methods_of(cls_sld.qual, inherited=False)
+         if x in ('__getitem__', 'get', '__contains__', '__delitem__',
+                  'move_to_end', 'popitem', 'pop')})
+    ctx.ob('OWN.fifo', cls_sld.qual, 'insertion order is eviction order',
+           not reorder, 'no read-side override and no reordering call%s' % (
+               (' (found %s)' % reorder) if reorder else ''),
+           node=cls_sld.node)
     f3i = m.func('utilities.SizeLimitDict.__init__')
     ok = any(isinstance(nd, ast.Call) and isinstance(nd.func, ast.Attribute)
              and nd.func.attr == 'pop' and nd.args and
